@@ -7,22 +7,22 @@ from vlib import dtcodec, gen
 
 META = {
     'level_text': 'Theorems for every lawful float carrier, every well-formed datatype tree of any depth, every JSON value / Python '
-                  'value offered and every previous value that is absent or in the value set: accept_sound / validate_sound (an '
-                  'accepted value lies in the declared value set), import_denotes + validate_denotes = accept_denotes (the JSON value '
-                  'stands for a Python value v - no string taken as a number, no fraction truncated, canonical base64, equal lengths - '
-                  'and the accepted value denotes v: numerically equal or clamped from inside the documented tolerance, element-wise, '
-                  'key-wise with previous), accept_total / validate_total / import_total / call_total (only bad-value errors), '
-                  'validate_idem + validate_canon = revalidate_unchanged (a validated value is returned unchanged, without and with '
-                  'itself as previous; hypothesis GridExact: the grid of every scaled type is exactly representable on its range), '
-                  'inSetB_sound / inSetB_complete.  Not proved: call_idem (statement kept; judged by the monitor on every outcome of '
-                  '__call__).  The models are tied to frappy/datatypes.py by a correspondence run on the real classes; the Lean '
-                  'monitors are `decide` of the specification Props themselves.',
+                  'value offered and every previous value that is absent or merely has the shape of the type (Shaped: tuples have '
+                  'the arity of the type - true of every value of the value set and of everything __call__ returns; the previous value '
+                  'need NOT lie inside the limits): accept_sound / validate_sound (an accepted value lies in the declared value set), '
+                  'import_denotes + validate_denotes = accept_denotes (the JSON value stands for a Python value v - no string taken as '
+                  'a number, no fraction truncated, canonical base64, equal lengths - and the accepted value denotes v: numerically '
+                  'equal or clamped from inside the documented tolerance, element-wise, key-wise, members not offered taken from '
+                  'previous and validated), accept_total / validate_total / import_total / call_total (only bad-value errors), '
+                  'validate_idem + validate_canon = revalidate_unchanged (hypothesis GridExact), call_idem (hypothesis GridAll), '
+                  'inSetB_sound / inSetB_complete.  The models are tied to frappy/datatypes.py by a correspondence run on the real '
+                  'classes; the Lean monitors are `decide` of the specification Props themselves.',
     'level_note': 'Trusted: Lean kernel + axioms propext/Classical.choice/Quot.sound; the 27 laws of LawfulFloatOps for binary64 (all '
-                  'proved for the exact carrier Rat; re-tested on the doubles of every run - a test).  GridExact (hypothesis of '
-                  'idempotence) holds over Rat; for binary64 it can fail where scale is below the float spacing at the limits (grid '
-                  'indices beyond 2^53) - the generator probes that region.  lazy_number_validation stays False.  Lone-surrogate '
-                  'strings and previous values of a wrong kind are judged for totality only.  Previous values are values that '
-                  'validate accepts.',
+                  'proved for the exact carrier Rat; re-tested on the doubles of every run - a test).  GridExact / GridAll (hypotheses '
+                  'of idempotence) hold over Rat; for binary64 they can fail where scale is below the float spacing (grid indices '
+                  'beyond 2^53) - the generator probes that region.  lazy_number_validation stays False.  Lone-surrogate strings and '
+                  'previous values of a wrong kind are judged for totality only.  Previous values are values __call__ accepts '
+                  '(validate-accepted ones and ones pushed outside the limits).',
     'trusted': [
         'binary64 satisfies the 27 laws of LawfulFloatOps (FrappyModel/Base/Num.lean): order laws, monotonicity of x/scale, k*scale, '
         'round(), x + 0.0, tolerance band; proved for the Rat carrier, re-tested on the doubles of each run',
@@ -37,7 +37,7 @@ META = {
         'frappy.properties.HasProperties.checkProperties (DType.WF is what it enforces)',
     ],
     'assumptions': ['generalConfig.lazy_number_validation is False (default)',
-                    'previous is None or a value of the declared value set',
+                    'previous is None or a value __call__ returned (it may lie outside the limits)',
                     'dict keys of offered values are strings (struct member names)'],
 }
 
@@ -253,7 +253,7 @@ def law_test(ctx, res, cases):
     res.count('float-law re-test (a test): tuples', len(tuples))
     res.count('float-law re-test (a test): distinct doubles', len(fl))
     res.count('float-law re-test (a test): laws violated', len(fails))
-    res.notes.append(f'float-law re-test (a test, not a proof): the {27} laws of LawfulFloatOps evaluated with the Float instance on '
+    res.notes.append(f'float-law re-test (a test, not a proof): the laws of LawfulFloatOps evaluated with the Float instance on '
                      f'{len(tuples)} tuples over the {len(fl)} distinct doubles and {len(it)} integers of this run: '
                      f'{len(fails)} laws violated')
     for name, t in fails.items():
@@ -417,13 +417,20 @@ def run(ctx):
         for mode, stream, cand, prev in make_cases(rng, tree, per_tree, big):
             if mode == 'wire' and not dtcodec.is_json_value(cand):
                 mode = 'py'
+            if prev is not None and rng.random() < 0.35:
+                w = gen.push_outside(rng, tree, prev)      # reported by the hardware: outside the limits
+                if w is not None:
+                    prev = w
+                    res.count('previous.pushed-outside-limits')
             if prev is not None:
-                # a previous value is one that validation has accepted (precondition of the quantifier, not a verdict):
-                # e.g. the limit of a scaled type with scale < ulp(limit)/2 is in the declared set but is never accepted
-                o = _outcome(lambda: real.validate(prev))
-                if o[0] != 'ok' or dtcodec.canon(dtcodec.py_to_json(o[1])) != dtcodec.canon(dtcodec.py_to_json(prev)):
-                    res.count('previous.dropped(not accepted by validate)')
+                # a previous value is whatever the parameter may hold: what `dt(x)` returned for some x (driver updates are
+                # converted by __call__, which does not check limits) - a precondition of the quantifier, not a verdict
+                o = _outcome(lambda: real(prev))
+                if o[0] != 'ok' or not dtcodec.encodable(o[1]):
+                    res.count('previous.dropped(not accepted by __call__)')
                     prev = None
+                else:
+                    prev = o[1]
             res.count('previous=' + ('none' if prev is None else 'given'))
             if not (dtcodec.encodable(cand) and dtcodec.encodable(prev)):
                 continue
@@ -431,6 +438,32 @@ def run(ctx):
             if via:
                 c['via_get_datatype'] = True
             cases.append((c, stream))
+        # candidates built relative to the value the parameter holds (validate-accepted and merely call-accepted ones)
+        nrel = max(4, per_tree // 5)
+        pool = []
+        for _ in range(3):
+            v = gen.gen_valid(rng, tree)
+            if v is None:
+                continue
+            pool.append(('held:valid', v))
+            w = gen.push_outside(rng, tree, v)
+            if w is not None:
+                pool.append(('held:out-of-limits', w))
+        for label, raw in pool:
+            o = _outcome(lambda: real(raw))
+            if o[0] != 'ok' or not dtcodec.encodable(o[1]):
+                continue
+            held = o[1]
+            res.count('previous.' + label)
+            for wire in (True, False):
+                for cand in gen.relative_candidates(rng, tree, held, wire, max(2, nrel // 4)):
+                    mode = 'wire' if wire and dtcodec.is_json_value(cand) else 'py'
+                    if not dtcodec.encodable(cand):
+                        continue
+                    c = proto_case(tree, mode, dtcodec.py_to_json(cand), dtcodec.py_to_json(held))
+                    if via:
+                        c['via_get_datatype'] = True
+                    cases.append((c, 'relative'))
         if any(k in ('string', 'enum', 'struct') for k in dtcodec.tree_kinds(tree)):
             for s in surrogate_cases(rng, tree, 2):
                 surrogates.append((tree, s))
